@@ -1158,7 +1158,16 @@ struct Runner {
           for (size_t i = 0; i < F_SIZE && bad.empty(); i++) {
             if (i >= F_MM && i < F_MEM && !fx.mmx) continue;
             if (out.b[i] == out2.b[i]) continue;
-            if (flipped[i]) { if (out.b[i] == in.b[i] && out2.b[i] == in2.b[i]) { st.passthrough_seen++; continue; } }
+            if (flipped[i] && out.b[i] == in.b[i] && out2.b[i] == in2.b[i]) {
+              // an old value that survives is a pass-through only where no write was reported: a register byte inside the
+              // reported write mask (not the extension mask: legacy SSE leaves the upper lanes alone) of an operand that
+              // is not reported as read, whose old content shows in the result, was in fact read (merge-masking, partial
+              // writes). Memory that is simply not stored to stays exempt.
+              bool reported_written = i < F_MEM && A.wr[i] && !A.zx[i];
+              // bsf/bsr with a zero source: the destination is architecturally undefined (fx 'z'), not a defined result
+              if (c.has('z') && ((out.fl | out2.fl) & 0x4)) reported_written = false;
+              if (!reported_written) { st.passthrough_seen++; continue; }
+            }
             bad = loc_name(i);
           }
           uint32_t fd = (out.fl ^ out2.fl) & ~c.uf;
